@@ -17,6 +17,9 @@ import (
 	"io"
 	"net"
 	"net/http"
+	"net/http/httptrace"
+	"os"
+	"runtime/debug"
 	"sort"
 	"strconv"
 	"strings"
@@ -26,6 +29,7 @@ import (
 	"github.com/saucelabs/forwarder"
 	"github.com/saucelabs/forwarder/httplog"
 	"github.com/saucelabs/forwarder/log"
+	fslog "github.com/saucelabs/forwarder/log/slog"
 
 	"verifharness/coqfmt"
 	"verifharness/rng"
@@ -79,6 +83,7 @@ type ecaseJ struct {
 	Pipeline bool    // the client writes all requests before it reads the first response
 	Handler  bool    // through the http.Handler variant of the proxy (oracle only, the model is of the connection handler)
 	AttachRT bool    // the proxy's RoundTripper is wrapped: replies carrying X-Attach-Body get a body attached (header-only replies with an unexpected body)
+	MustComplete bool // nothing in the scenario permits the proxy to close the connection: every exchange must be answered on it
 	Shutdown int     // >0: the proxy (a rig of its own) is told to shut down this many ms after the first request was sent, while the origin still delays its reply
 }
 
@@ -281,6 +286,44 @@ func (a attachRT) RoundTrip(req *http.Request) (*http.Response, error) {
 	return res, err
 }
 
+type closeTraceConn struct{ net.Conn }
+
+func (c closeTraceConn) Close() error {
+	fmt.Fprintf(os.Stderr, "ORIGIN-CONN-CLOSE %s\n%s\n", time.Now().Format("15:04:05.000000"), debug.Stack())
+	return c.Conn.Close()
+}
+
+// errLogRT (diagnostics only, C02_LOG=1): reports the error a response body read ends with
+type errLogRT struct{ base http.RoundTripper }
+type errLogBody struct {
+	io.ReadCloser
+	path string
+}
+
+func (b errLogBody) Read(p []byte) (int, error) {
+	n, err := b.ReadCloser.Read(p)
+	if err != nil && err != io.EOF {
+		fmt.Fprintf(os.Stderr, "BODY-READ-ERROR %s %s: %T %v\n", time.Now().Format("15:04:05.000000"), b.path, err, err)
+	}
+	return n, err
+}
+func (a errLogRT) RoundTrip(req *http.Request) (*http.Response, error) {
+	path := req.URL.Path
+	req = req.WithContext(httptrace.WithClientTrace(req.Context(), &httptrace.ClientTrace{
+		WroteRequest: func(info httptrace.WroteRequestInfo) {
+			fmt.Fprintf(os.Stderr, "WROTE-REQUEST %s %s err=%v\n", time.Now().Format("15:04:05.000000"), path, info.Err)
+		},
+		GotFirstResponseByte: func() {
+			fmt.Fprintf(os.Stderr, "FIRST-RESPONSE-BYTE %s %s\n", time.Now().Format("15:04:05.000000"), path)
+		},
+	}))
+	res, err := a.base.RoundTrip(req)
+	if err == nil && res.Body != http.NoBody {
+		res.Body = errLogBody{res.Body, req.URL.Path}
+	}
+	return res, err
+}
+
 func newProxyRig(handler bool, attach ...bool) *proxyRig {
 	rig := &proxyRig{snaps: map[string]snapshot{}}
 	cfg := forwarder.DefaultHTTPProxyConfig()
@@ -307,11 +350,28 @@ func newProxyRig(handler bool, attach ...bool) *proxyRig {
 	if err != nil {
 		panic(err)
 	}
+	if os.Getenv("C02_LOG") == "2" { // diagnostics: who closes the connection to the origin
+		dial := tr.DialContext
+		tr.DialContext = func(ctx context.Context, network, addr string) (net.Conn, error) {
+			c, err := dial(ctx, network, addr)
+			if err != nil {
+				return nil, err
+			}
+			return closeTraceConn{c}, nil
+		}
+	}
 	var rt http.RoundTripper = tr
 	if len(attach) > 0 && attach[0] {
 		rt = attachRT{tr}
 	}
-	hp, err := forwarder.NewHTTPProxy(cfg, nil, nil, rt, log.NopLogger, nil)
+	if os.Getenv("C02_LOG") != "" {
+		rt = errLogRT{rt}
+	}
+	var lg log.StructuredLogger = log.NopLogger
+	if os.Getenv("C02_LOG") != "" { // diagnostics: the proxy's own log on stderr
+		lg = fslog.Debug()
+	}
+	hp, err := forwarder.NewHTTPProxy(cfg, nil, nil, rt, lg, nil)
 	if err != nil {
 		panic(err)
 	}
@@ -801,19 +861,19 @@ func corpus() []ecaseJ {
 		}
 	}
 	return append(table, []ecaseJ{
-		{Class: "head-reply-with-declared-trailers", Exchs: []exchJ{{xreq{Method: "HEAD", Proto: "HTTP/1.1"}, headTr}, {get("HTTP/1.1"), plain}}},
-		{Class: "304-reply-with-declared-trailers", Exchs: []exchJ{{get("HTTP/1.1"), nm}, {get("HTTP/1.1"), plain}}},
-		{Class: "204-reply-with-declared-trailers", Exchs: []exchJ{{get("HTTP/1.1"), nc}, {get("HTTP/1.1"), plain}}},
-		{Class: "gzip-solicited-by-proxy", Exchs: []exchJ{{get("HTTP/1.1"), gz}, {get("HTTP/1.1"), plain}}},
-		{Class: "gzip-solicited-by-client", Exchs: []exchJ{{xreq{Method: "GET", Proto: "HTTP/1.1", AcceptE: "gzip"}, gz}, {get("HTTP/1.1"), plain}}},
+		{Class: "head-reply-with-declared-trailers", MustComplete: true, Exchs: []exchJ{{xreq{Method: "HEAD", Proto: "HTTP/1.1"}, headTr}, {get("HTTP/1.1"), plain}}},
+		{Class: "304-reply-with-declared-trailers", MustComplete: true, Exchs: []exchJ{{get("HTTP/1.1"), nm}, {get("HTTP/1.1"), plain}}},
+		{Class: "204-reply-with-declared-trailers", MustComplete: true, Exchs: []exchJ{{get("HTTP/1.1"), nc}, {get("HTTP/1.1"), plain}}},
+		{Class: "gzip-solicited-by-proxy", MustComplete: true, Exchs: []exchJ{{get("HTTP/1.1"), gz}, {get("HTTP/1.1"), plain}}},
+		{Class: "gzip-solicited-by-client", MustComplete: true, Exchs: []exchJ{{xreq{Method: "GET", Proto: "HTTP/1.1", AcceptE: "gzip"}, gz}, {get("HTTP/1.1"), plain}}},
 		{Class: "http10-client-chunked-origin", Exchs: []exchJ{{h10, ch}, {h10, plain}}},
 		{Class: "http10-client-chunked-origin", Exchs: []exchJ{{h10c, ch}}},
-		{Class: "header-only-reply-with-unexpected-body", AttachRT: true, Exchs: []exchJ{
+		{Class: "header-only-reply-with-unexpected-body", AttachRT: true, MustComplete: true, Exchs: []exchJ{
 			{get("HTTP/1.1"), oresp{Proto: "HTTP/1.1", Code: 304, Reason: "Not Modified", Fields: []hfield{{"X-Attach-Body", "1"}, {"Etag", "\"x\""}}, Framing: "none", HeadCL: -1, KeepOpen: true}},
 			{xreq{Method: "HEAD", Proto: "HTTP/1.1"}, oresp{Proto: "HTTP/1.1", Code: 200, Reason: "OK", Fields: []hfield{{"X-Attach-Body", "1"}}, Framing: "none", HeadCL: 5, KeepOpen: true}},
 			{get("HTTP/1.1"), oresp{Proto: "HTTP/1.1", Code: 204, Reason: "No Content", Fields: []hfield{{"X-Attach-Body", "1"}}, Framing: "none", HeadCL: -1, KeepOpen: true}},
 			{get("HTTP/1.1"), plain}}},
-		{Class: "connection-nominates-several-fields", Exchs: []exchJ{
+		{Class: "connection-nominates-several-fields", MustComplete: true, Exchs: []exchJ{
 			{get("HTTP/1.1"), oresp{Proto: "HTTP/1.1", Code: 200, Reason: "OK", Fields: []hfield{{"Connection", "keep-alive, X-Session-Hop"}, {"X-Session-Hop", "s"}, {"X-Keep", "k"}},
 				Framing: "cl", Body: "ok", HeadCL: -1, KeepOpen: true}},
 			{xreq{Method: "HEAD", Proto: "HTTP/1.1"}, oresp{Proto: "HTTP/1.1", Code: 200, Reason: "OK", Fields: []hfield{{"Connection", "X-A-Hop,x-b-hop ,\tX-C-HOP"}, {"X-A-Hop", "a"}, {"X-B-Hop", "b"}, {"X-C-Hop", "c"}, {"X-Keep", "k"}},
@@ -836,7 +896,7 @@ func corpus() []ecaseJ {
 		{Class: "origin-body-breaks-after-head:corrupt-solicited-gzip", Pipeline: true, Exchs: []exchJ{
 			{get("HTTP/1.1"), oresp{Proto: "HTTP/1.1", Code: 200, Reason: "OK", Framing: "cl", Body: strings.Repeat("some compressible text, ", 400), Gzip: true, Break: "gzip", HeadCL: -1, KeepOpen: true}},
 			{get("HTTP/1.1"), plain}}},
-		{Class: "trailers:declared-several-keys-and-values", Exchs: []exchJ{
+		{Class: "trailers:declared-several-keys-and-values", MustComplete: true, Exchs: []exchJ{
 			{get("HTTP/1.1"), oresp{Proto: "HTTP/1.1", Code: 200, Reason: "OK", Framing: "chunked", Body: "hello world", Chunks: []int{5, 6}, Declare: true,
 				Trailers: []hfield{{"X-T", "v1"}, {"x-checksum", "abc"}, {"X-T", "v2"}, {"Expires", "0"}}, HeadCL: -1, KeepOpen: true}},
 			{get("HTTP/1.1"), plain}}},
@@ -844,26 +904,26 @@ func corpus() []ecaseJ {
 			{get("HTTP/1.1"), oresp{Proto: "HTTP/1.1", Code: 200, Reason: "OK", Framing: "chunked", Body: "hello", Chunks: []int{5}, Declare: true,
 				Trailers: []hfield{{"X-T", "v1"}}, Fields: []hfield{{"Trailer", "X-Never"}}, HeadCL: -1, KeepOpen: true}},
 			{get("HTTP/1.1"), plain}}},
-		{Class: "trailers:undeclared-only", Exchs: []exchJ{
+		{Class: "trailers:undeclared-only", MustComplete: true, Exchs: []exchJ{
 			{get("HTTP/1.1"), oresp{Proto: "HTTP/1.1", Code: 200, Reason: "OK", Framing: "chunked", Body: "hello", Chunks: []int{5},
 				Undeclared: []hfield{{"X-Undeclared", "u"}}, HeadCL: -1, KeepOpen: true}},
 			{get("HTTP/1.1"), plain}}},
-		{Class: "trailers:declared-and-undeclared", Exchs: []exchJ{
+		{Class: "trailers:declared-and-undeclared", MustComplete: true, Exchs: []exchJ{
 			{get("HTTP/1.1"), oresp{Proto: "HTTP/1.1", Code: 200, Reason: "OK", Framing: "chunked", Body: "hello", Chunks: []int{5}, Declare: true,
 				Trailers: []hfield{{"X-T", "v1"}}, Undeclared: []hfield{{"X-Undeclared", "u"}, {"A-Undeclared", "a"}}, HeadCL: -1, KeepOpen: true}},
 			{get("HTTP/1.1"), plain}}},
 		{Class: "trailers:http10-client", Exchs: []exchJ{
 			{h10, oresp{Proto: "HTTP/1.1", Code: 200, Reason: "OK", Framing: "chunked", Body: "hello", Chunks: []int{5}, Declare: true,
 				Trailers: []hfield{{"X-T", "v1"}}, HeadCL: -1, KeepOpen: true}}}},
-		{Class: "interim-responses:103-early-hints", Exchs: []exchJ{
+		{Class: "interim-responses:103-early-hints", MustComplete: true, Exchs: []exchJ{
 			{get("HTTP/1.1"), oresp{Interim: []string{"HTTP/1.1 103 Early Hints\r\nLink: </style.css>; rel=preload\r\n\r\n"}, Proto: "HTTP/1.1", Code: 200, Reason: "OK",
 				Fields: []hfield{{"X-Keep", "k"}}, Framing: "cl", Body: "final", HeadCL: -1, KeepOpen: true}},
 			{get("HTTP/1.1"), plain}}},
-		{Class: "interim-responses:100-continue-solicited", Exchs: []exchJ{
+		{Class: "interim-responses:100-continue-solicited", MustComplete: true, Exchs: []exchJ{
 			{xreq{Method: "POST", Proto: "HTTP/1.1", Body: "q=1", Expect: true}, oresp{Interim: []string{"HTTP/1.1 100 Continue\r\n\r\n"}, Proto: "HTTP/1.1", Code: 201, Reason: "Created",
 				Framing: "chunked", Body: "made", Chunks: []int{4}, HeadCL: -1, KeepOpen: true}},
 			{get("HTTP/1.1"), plain}}},
-		{Class: "interim-responses:several-unsolicited", Exchs: []exchJ{
+		{Class: "interim-responses:several-unsolicited", MustComplete: true, Exchs: []exchJ{
 			{get("HTTP/1.1"), oresp{Interim: []string{"HTTP/1.1 100 Continue\r\n\r\n", "HTTP/1.1 102 Processing\r\n\r\n", "HTTP/1.1 103 Early Hints\r\nLink: </a>\r\n\r\n"},
 				Proto: "HTTP/1.1", Code: 200, Reason: "OK", Framing: "chunked", Body: "hello world", Chunks: []int{5, 6}, Declare: true, Trailers: []hfield{{"X-T", "v"}}, HeadCL: -1, KeepOpen: true}},
 			{xreq{Method: "HEAD", Proto: "HTTP/1.1"}, oresp{Interim: []string{"HTTP/1.1 103 Early Hints\r\nLink: </b>\r\n\r\n"}, Proto: "HTTP/1.1", Code: 200, Reason: "OK", Framing: "none", HeadCL: 7, KeepOpen: true}},
@@ -872,7 +932,7 @@ func corpus() []ecaseJ {
 		{Class: "interim-responses:http10-client", Exchs: []exchJ{
 			{h10, oresp{Interim: []string{"HTTP/1.1 103 Early Hints\r\nLink: </a>\r\n\r\n"}, Proto: "HTTP/1.1", Code: 200, Reason: "OK", Framing: "cl", Body: "final", HeadCL: -1, KeepOpen: true}},
 			{h10, plain}}},
-		{Class: "chunked-with-trailers", Exchs: []exchJ{{get("HTTP/1.1"), chTr}, {get("HTTP/1.1"), plain}, {xreq{Method: "HEAD", Proto: "HTTP/1.1"}, plain}, {get("HTTP/1.1"), ch}}},
+		{Class: "chunked-with-trailers", MustComplete: true, Exchs: []exchJ{{get("HTTP/1.1"), chTr}, {get("HTTP/1.1"), plain}, {xreq{Method: "HEAD", Proto: "HTTP/1.1"}, plain}, {get("HTTP/1.1"), ch}}},
 	}...)
 }
 
@@ -1048,8 +1108,8 @@ func renderE2E(c ecaseJ, res connResult, snaps []snapshot, sawAE []string, relax
 	}
 	v11 := c.Exchs[0].Req.Proto == "HTTP/1.1"
 	broken := res.Done < len(c.Exchs) && c.Exchs[res.Done].Resp.Break != ""
-	return fmt.Sprintf("{| e_v11 := %s; e_want := %d; e_exchs := %s; e_stream := %s; e_closed := %s; e_broken := %s |}", coqfmt.Bool(v11), len(c.Exchs),
-		coqfmt.List("exch", parts), cstr(string(res.Stream)), coqfmt.Bool(res.Closed), coqfmt.Bool(broken))
+	return fmt.Sprintf("{| e_v11 := %s; e_want := %d; e_exchs := %s; e_stream := %s; e_closed := %s; e_broken := %s; e_must_complete := %s |}", coqfmt.Bool(v11), len(c.Exchs),
+		coqfmt.List("exch", parts), cstr(string(res.Stream)), coqfmt.Bool(res.Closed), coqfmt.Bool(broken), coqfmt.Bool(c.MustComplete))
 }
 
 // ---------------------------------------------------------------- driver
